@@ -2,6 +2,8 @@ import EupsModel.Lemmas.Expand
 import EupsModel.Lemmas.ExpandDeps
 import EupsModel.Lemmas.ExpandSetup
 import EupsModel.Lemmas.ExpandTable
+import EupsModel.Lemmas.ExpandCovered
+import EupsModel.Lemmas.ExpandReader
 /-! C17 — an expanded table file reproduces the build-time versions exactly.  Property theorems only
 (the model is `Model/Expand.lean`, helper lemmas are in `Lemmas/Expand.lean`).
 
@@ -120,6 +122,24 @@ theorem C17_never_foreign_over_Deps (db : Deps.Db) (fuel : Nat) (setup : List (S
     (ind : Int) (opt : Bool) (n v : Str) (hx : Item.pin ind opt n v ∈ items) : Recorded A n v :=
   C17_never_foreign A o lines items (depsSound_of_depsModel db fuel setup raises A hsv hdeps) h ind opt n v hx
 
+/-- **A declared version is reported under its own name, whatever tags exist** (`Eups.findSetupVersion`, the source of
+the answers `sv` / `spv`): when the version recorded in `SETUP_<P>` is declared, the version reported is the recorded one —
+also when its name is the name of a recognised tag (`current`, `beta`, a user tag) that is assigned to another version. -/
+theorem C17_setupVersion_recorded (recognised : List Str) (declared : Str → Bool) (tagged : Str → Option Str) (recorded : Str)
+    (h : declared recorded = true) : setupVersion recognised declared tagged recorded = recorded := by
+  unfold setupVersion
+  split
+  · rfl
+  · simp [h]
+
+/-- …and the reading that takes every recognised tag name for the tag is wrong on exactly this class: version `current`
+declared and set up, tag `current` assigned to version `1`. -/
+theorem C17_setupVersion_tag_named_witness :
+    setupVersion [Str.ofString "current"] (fun _ => true) (fun _ => some (Str.ofString "1")) (Str.ofString "current")
+      = Str.ofString "current" ∧
+    setupVersion [Str.ofString "current"] (fun _ => false) (fun _ => some (Str.ofString "1")) (Str.ofString "current")
+      = Str.ofString "1" := by decide
+
 /-! ## keeps the original constraints for inexact mode -/
 
 /-- `C17_keeps_constraints`, line level (`subSetup`).  `p` is what the expander read on a setup line (product,
@@ -181,6 +201,102 @@ theorem C17_keeps_constraints_line (A : Answers) (o : Opts) (optional : Bool) (p
             have ht : truthy (some (sGe ++ sv)) = true := by rw [hge]; rfl
             simp [he, hl, hloc, ht]
         · simp [hts] at h
+
+/-- **`parseArgs` against an independent reader of a setup line** (`Lemmas/ExpandReader.lean`).  A setup line as documented
+is, between its parentheses, a sequence of tokens with any white space before, between and after them (`layout`: each token
+with the gap that follows it): flags anywhere (`Tok.flag1`: `-j`, `-k`, …, `--external`; `Tok.flag2`: `-t tag`, `-T type`,
+`-r dir`, … with their argument) and, as words in order, the product name and one of the five documented ways of naming a
+version (`Form`): nothing / `v` / `v [e1 … ek]` / `[e1 … ek]` / a relational expression without brackets `>= 1 …`.  The
+reader `Form.parsed` says what the line means; `parseArgs` — `str.split`, the flag loop with its two bracket patterns, the
+search for `[` … `]`, `isLegalRelativeVersion` — computes exactly that from the text. -/
+theorem C17_parseArgs_reads (lead : Str) (layout : List (Str × Str)) (toks : List Tok) (name : Str) (fm : Form)
+    (hlead : ∀ c ∈ lead, Str.isSpace c = true) (htok : ∀ p ∈ layout, tokStr p.1 = true) (hgaps : gapsOK layout = true)
+    (hlay : layout.map (·.1) = toks.flatMap Tok.strs) (hok : ∀ t ∈ toks, t.ok = true)
+    (hwords : toks.filterMap Tok.wordText = fm.words name) (hn : plainWord name = true) (hf : fm.ok = true)
+    (heups : (toks.flatMap Tok.strs).head? ≠ some sEups) :
+    parseArgs (lead ++ renderGaps layout) = .ok (.parsed (fm.parsed name (toks.filterMap Tok.flagText))) :=
+  parseArgs_reads _ toks name fm (by rw [splitWs_render lead hlead layout htok hgaps, hlay]) hok hwords hn hf heups
+
+theorem truthy_none : truthy none = false := rfl
+
+theorem join_truthy {es : List Str} (hne : es ≠ []) (hp : ∀ e ∈ es, e ≠ []) : truthy (some (join [cSp] es)) = true := by
+  cases es with
+  | nil => exact absurd rfl hne
+  | cons e rest =>
+    have he := hp e (by simp)
+    cases e with
+    | nil => exact absurd rfl he
+    | cons c cs =>
+      cases rest with
+      | nil => rfl
+      | cons e2 r => rfl
+
+/-- **keeps the original constraints, for every documented form of a setup line** (`C17_parseArgs_reads` composed with
+`decideRewrite`): for a product that is set up at version `v` (not a `LOCAL:` version) and not pinned with `-p`, with the
+default options, `subSetup` rewrites the line to: the same command, product and flags, then
+`v [>= v]` for a bare line; the explicit version as it was for `name v0` (nothing added) and `name v0 [expr]` (expression
+kept verbatim); `v [expr]` for `name [expr]`; `v [>= 1 …]` for `name >= 1 …`. -/
+theorem C17_keeps_constraints_written (A : Answers) (o : Opts) (optional : Bool) (original : Str)
+    (lead : Str) (layout : List (Str × Str)) (toks : List Tok) (name : Str) (fm : Form)
+    (hlead : ∀ c ∈ lead, Str.isSpace c = true) (htok : ∀ p ∈ layout, tokStr p.1 = true) (hgaps : gapsOK layout = true)
+    (hlay : layout.map (·.1) = toks.flatMap Tok.strs) (hok : ∀ t ∈ toks, t.ok = true)
+    (hwords : toks.filterMap Tok.wordText = fm.words name) (hn : plainWord name = true) (hf : fm.ok = true)
+    (heups : (toks.flatMap Tok.strs).head? ≠ some sEups)
+    (hpin : A.pin name = none) (hexp : o.expandVersions = true)
+    (v : Str) (hspv : A.spv name = some v) (hv : v ≠ []) (hloc : startsWith v sLocal = false) :
+    subSetup A o optional (lead ++ renderGaps layout) original = .ok (renderRewrite (
+      let flags := toks.filterMap Tok.flagText
+      match fm with
+      | .bare => ⟨optional, name, flags, some v, some (sGe ++ v)⟩
+      | .ver v0 => ⟨optional, name, flags, some v0, none⟩
+      | .verExpr v0 es => ⟨optional, name, flags, some v0, some (join [cSp] es)⟩
+      | .expr es => ⟨optional, name, flags, some v, some (join [cSp] es)⟩
+      | .rel r ws => ⟨optional, name, flags, some v, some (join [cSp] (r :: ws))⟩)) := by
+  have hparse := C17_parseArgs_reads lead layout toks name fm hlead htok hgaps hlay hok hwords hn hf heups
+  have htv : truthy (some v) = true := by
+    cases v with
+    | nil => exact absurd rfl hv
+    | cons c cs => rfl
+  have hge : truthy (some (sGe ++ v)) = true := by
+    have : sGe = [62, 61, 32] := by decide
+    rw [this]; rfl
+  have plain_ne : ∀ {w : Str}, plainWord w = true → w ≠ [] := fun h => by
+    obtain ⟨c, tl, rfl, _, _⟩ := plainWord_facts h; simp
+  unfold subSetup
+  simp only [hparse, bind, Except.bind]
+  cases fm with
+  | bare =>
+    simp [Form.parsed, decideRewrite, hpin, hspv, htv, hexp, hloc, hge, truthy_none, pure, Except.pure]
+  | ver v0 =>
+    simp only [Form.ok, versionWord, Bool.and_eq_true] at hf
+    have hne := plain_ne hf.1.1
+    have ht0 : truthy (some v0) = true := by
+      cases v0 with
+      | nil => exact absurd rfl hne
+      | cons c cs => rfl
+    simp [Form.parsed, decideRewrite, hpin, ht0, hexp, truthy_none, pure, Except.pure]
+  | verExpr v0 es =>
+    simp only [Form.ok, versionWord, Bool.and_eq_true, Bool.not_eq_true', List.isEmpty_eq_false_iff, List.all_eq_true] at hf
+    have hne := plain_ne hf.1.1.1.1
+    have ht0 : truthy (some v0) = true := by
+      cases v0 with
+      | nil => exact absurd rfl hne
+      | cons c cs => rfl
+    have hj := join_truthy hf.1.2 (fun e he => plain_ne (hf.2 e he))
+    simp [Form.parsed, decideRewrite, hpin, ht0, hexp, hj, pure, Except.pure]
+  | expr es =>
+    simp only [Form.ok, Bool.and_eq_true, Bool.not_eq_true', List.isEmpty_eq_false_iff, List.all_eq_true] at hf
+    have hj := join_truthy hf.1 (fun e he => plain_ne (hf.2 e he))
+    simp [Form.parsed, decideRewrite, hpin, hspv, htv, hexp, hj, truthy_none, pure, Except.pure]
+  | rel r ws =>
+    simp only [Form.ok, Bool.and_eq_true, List.all_eq_true] at hf
+    have hj : truthy (some (join [cSp] (r :: ws))) = true :=
+      join_truthy (by simp) (fun e he => by
+        simp only [List.mem_cons] at he
+        rcases he with rfl | he
+        · exact plain_ne hf.1.1
+        · exact plain_ne (hf.2 e he))
+    simp [Form.parsed, decideRewrite, hpin, hspv, htv, hexp, hj, truthy_none, pure, Except.pure]
 
 /-- A setup command is either left exactly as it was (the `eups` pseudo-product, no product word, or nothing set up
 for it) or rewritten as described by `C17_keeps_constraints_line`. -/
@@ -350,6 +466,53 @@ theorem C17_exact_reproduces_partial {Db : Type} (declared : Db → Str → Str 
   rw [hf, ← hm, List.map_map]
   exact H.pin_sets_exactly pl db'
 
+
+/-- **`Covered` cannot be weakened** (it is exactly what exact reproduction needs of the build environment).  If running the
+pins of the expanded table (`runPins`, from an environment without records) reproduces the build-time record of every product
+other than the top-level one, then every set-up product other than the top-level one is contributed to `desiredProducts` by
+a product of the table — `Covered`.  No hypothesis on the environment's answers.  (The class on which `Covered` fails on the
+real code is the open finding D72: `C17_d72_covered_fails_witness`.) -/
+theorem C17_covered_necessary {Db : Type} (declared : Db → Str → Str → Bool)
+    (A : Answers) (o : Opts) (lines : List Str) (items : List Item)
+    (h : expandItems A o lines = .ok items) (hn : noExactLine A o lines = true) (ha : o.addExactBlock = true)
+    (db' : Db) (recs : Recs) (hrun : runPins declared db' (items.filterMap pinKey) (fun _ => none) = some recs)
+    (hrep : ∀ n, o.toplevel ≠ some n → recs n = A.sv n) :
+    ∀ st, readAll A o lines = .ok st → Covered A o st := by
+  intro st hr n v hs hne
+  obtain ⟨st', c, hr', hc, hpk⟩ := expand_pins h hn ha
+  rw [hr] at hr'
+  cases hr'
+  rw [hpk] at hrun
+  by_cases hin : ∃ x ∈ c.pinKeys, x.2.1 = n
+  · obtain ⟨x, hx, hxn⟩ := hin
+    simp only [CState.pinKeys, List.mem_map] at hx
+    obtain ⟨⟨n', v'⟩, hq, rfl⟩ := hx
+    simp only at hxn
+    subst hxn
+    obtain ⟨p, hp, d, hd, hdq⟩ := collect_contrib hc (n', v') hq
+    exact ⟨p, hp, d, hd, by simpa using congrArg Prod.fst hdq⟩
+  · have := runPins_frame declared db' c.pinKeys (fun _ => none) recs hrun n hin
+    rw [hrep n hne, hs] at this
+    cases this
+
+/-- **Exact reproduction ⟺ `Covered`.**  For a successful expansion (no pre-existing exact block, `addExactBlock`) in an
+environment whose listings are sound (`DepsSound`), whose `-p` pins agree with the records, and a later database in which the
+recorded versions are still declared: running the pins of the expanded table reproduces the build-time record of every
+product other than the top-level one *if and only if* the build environment is `Covered`. -/
+theorem C17_exact_reproduces_iff_covered {Db : Type} (declared : Db → Str → Str → Bool)
+    (A : Answers) (o : Opts) (lines : List Str) (items : List Item)
+    (h : expandItems A o lines = .ok items) (hn : noExactLine A o lines = true) (ha : o.addExactBlock = true)
+    (hsound : DepsSound A) (hpins : ∀ n v, A.pin n = some v → A.sv n = some v)
+    (db' : Db) (hdecl : ∀ n v, A.sv n = some v → declared db' n v = true) :
+    (∃ recs, runPins declared db' (items.filterMap pinKey) (fun _ => none) = some recs ∧
+      ∀ n, o.toplevel ≠ some n → recs n = A.sv n)
+    ↔ (∀ st, readAll A o lines = .ok st → Covered A o st) := by
+  constructor
+  · rintro ⟨recs, hrun, hrep⟩
+    exact C17_covered_necessary declared A o lines items h hn ha db' recs hrun hrep
+  · intro hcov
+    exact C17_exact_reproduces_partial_inst declared (fun _ db => runPins declared db (items.filterMap pinKey) (fun _ => none))
+      A o lines items h hn ha hsound hpins hcov db' hdecl rfl rfl
 
 /-! ## exact reproduction over the model of `Eups.setup` (C01) -/
 
